@@ -34,7 +34,7 @@ ASSUMPTIONS = ["known findings are keyed by (phase, exception type, raising "
                "pox.lib.packet per parse+print+pack"]
 REQUIRED = ["frames", "unparsed_layers_compared_with_their_region", "parsed_ok", "truncations", "corruptions", "structured",
             "random_frames", "chains_walked", "reserialised", "printed",
-            "budget_armed", "packet_in_events", "checksum_fixed_mutants",
+            "budget_armed", "packet_in_events", "checksum_fixed_mutants", "igmp_checksum_fixed_mutants", "template_base_frames",
             "deeply_nested_frames"]
 TIMEOUT = {"quick": 1200, "thorough": 10800}
 
@@ -300,6 +300,37 @@ def icmp6_fixups (raw, rng, tier):
       yield "fixup", rebuild(msg[:p] + bytes([v]) + msg[p + 1:])
 
 
+def igmp_fixups (raw, rng, tier):
+  """
+  The same for IGMP (Ethernet / IPv4 without options / protocol 2): POX looks
+  into the message only when its checksum is right.  One byte of the message
+  corrupted, or the message cut short, with the IGMP checksum, the IPv4 total
+  length and the IPv4 header checksum put right again.
+  """
+  if len(raw) < 42 or raw[12:14] != b"\x08\x00" or raw[14] != 0x45 or raw[23] != 2: return
+  from pvm.ref import inet
+  msg = raw[34:]
+  def rebuild (m):
+    if len(m) >= 4:
+      m = m[:2] + b"\0\0" + m[4:]
+      m = m[:2] + struct.pack("!H", inet.csum(m)) + m[4:]
+    h = raw[14:16] + struct.pack("!H", 20 + len(m)) + raw[18:24] + b"\0\0" + raw[26:34]
+    h = h[:10] + struct.pack("!H", inet.csum(h)) + h[12:]
+    return raw[:14] + h + m
+  for k in range(1, len(msg)):
+    yield "fixup", rebuild(msg[:k])
+  quick = tier == "quick"
+  for p in range(0, min(len(msg), 300)):
+    if p in (2, 3): continue
+    vals = set([0, 0xff, msg[p] ^ 1, msg[p] ^ 0x80, (msg[p] + 1) & 0xff, 0x40, 0x11, 0x22])
+    if not quick: vals = set(range(256))
+    for v in sorted(vals):
+      if v == msg[p]: continue
+      yield "fixup", rebuild(msg[:p] + bytes([v]) + msg[p + 1:])
+  yield "fixup", rebuild(msg + b"\0" * 4)
+  yield "fixup", rebuild(msg + b"\xff" * 7)
+
+
 def deep_frames ():
   """
   Frames that nest one header type very deeply (jumbo-sized): a parser or
@@ -379,8 +410,10 @@ def random_frames (rng, n):
 def plan (tier, seed):
   n = len(corpus.build())
   if tier == "quick":
-    return [dict(base=i, rand=400) for i in range(n)] + [dict(base=-1, rand=0)]
-  return [dict(base=i, rand=250000) for i in range(n)] + [dict(base=-1, rand=0)]
+    return [dict(base=i, rand=400) for i in range(n)] + [dict(base=-1, rand=0)] + \
+        [dict(base=-2, rand=200, sub=i, per=1) for i in range(6)]
+  return [dict(base=i, rand=250000) for i in range(n)] + [dict(base=-1, rand=0)] + \
+      [dict(base=-2, rand=20000, sub=i, per=8) for i in range(24)]
 
 
 def run (spec, rep):
@@ -391,6 +424,32 @@ def run (spec, rep):
       if len(b) < 5000:
         for k in (len(b) - 1, len(b) - 3, len(b) // 2):
           do_case(dict(frame=b[:k], base=name, mut="deep-trunc"), rep)
+    return
+  if spec["base"] == -2:
+    # frames drawn from the corpus templates (other TLV types, option
+    # lengths, list lengths than the fixed corpus frames have) as bases
+    trng = random.Random("c15/template/%d/%d" % (spec["seed"], spec["sub"]))
+    for _ in range(spec["per"]):
+      for t in corpus.TEMPLATES:
+        fam, raw = t(trng)
+        rep.count("template_base_frames")
+        rng = random.Random("c15/%d/%s/%d" % (spec["seed"], fam, trng.getrandbits(30)))
+        for mut, b in mutations("t:" + fam, raw, rng, spec["tier"]):
+          rep.count({"trunc": "truncations", "byte": "corruptions",
+                     "struct": "structured"}.get(mut, "other"))
+          do_case(dict(frame=b, base="t:" + fam, mut=mut), rep)
+        for fix in (icmp6_fixups, igmp_fixups):
+          for mut, b in fix(raw, rng, spec["tier"]):
+            rep.count("checksum_fixed_mutants" if fix is icmp6_fixups
+                      else "igmp_checksum_fixed_mutants")
+            do_case(dict(frame=b, base="t:" + fam, mut=mut), rep)
+    # ... and many more draws as they are (a valid frame of an unusual shape
+    # is hostile enough for a serialiser that only knows the usual one)
+    for _ in range(300 if spec["tier"] == "quick" else 20000):
+      for t in corpus.TEMPLATES:
+        fam, raw = t(trng)
+        rep.count("template_frames_as_they_are")
+        do_case(dict(frame=raw, base="t:" + fam, mut="template"), rep)
     return
   C = corpus.build()
   name, raw = C[spec["base"]]
@@ -404,6 +463,9 @@ def run (spec, rep):
     if first and mut == "byte": rep.sample(case); first = False
   for mut, b in icmp6_fixups(raw, rng, spec["tier"]):
     rep.count("checksum_fixed_mutants")
+    do_case(dict(frame=b, base=name, mut=mut), rep)
+  for mut, b in igmp_fixups(raw, rng, spec["tier"]):
+    rep.count("igmp_checksum_fixed_mutants")
     do_case(dict(frame=b, base=name, mut=mut), rep)
   for mut, b in random_frames(rng, spec["rand"]):
     rep.count("random_frames")
